@@ -299,12 +299,8 @@ func (p *Prog) drainCheck(c *Ctx, f *Func, src *types.Var, inline ast.Expr, pipe
 				}
 				return false
 			}
-			cut := func(e *Edge) bool {
-				at, ok := edgeAtom(info, e)
-				if !ok || at.Kind != "nil" {
-					return false
-				}
-				x := ast.Unparen(at.X)
+			isScanErr := func(x ast.Expr) bool {
+				x = ast.Unparen(x)
 				// `if err := scanner.Err(); err != nil`: follow the variable to its definition
 				if v, isV := identObj(info, x).(*types.Var); isV && !v.IsField() {
 					ast.Inspect(f.Body, func(y ast.Node) bool {
@@ -315,7 +311,30 @@ func (p *Prog) drainCheck(c *Ctx, f *Func, src *types.Var, inline ast.Expr, pipe
 					})
 				}
 				cc, ok := x.(*ast.CallExpr)
-				if !ok || p.CalleeName(f, cc) != "bufio.Scanner.Err" || !recvIs(info, cc, w) {
+				return ok && p.CalleeName(f, cc) == "bufio.Scanner.Err" && recvIs(info, cc, w)
+			}
+			cut := func(e *Edge) bool {
+				at, ok := edgeAtom(info, e)
+				if !ok {
+					return false
+				}
+				if at.Kind == "call" {
+					// errors.Is(scanner.Err(), X): not the too-long stop on the false
+					// edge of X = bufio.ErrTooLong; a closed pipe (nothing left that
+					// could be read) on the true edge of X = os.ErrClosed
+					cc, isC := at.X.(*ast.CallExpr)
+					if !isC || p.CalleeName(f, cc) != "errors.Is" || len(cc.Args) != 2 || !isScanErr(cc.Args[0]) {
+						return false
+					}
+					switch objFullName(objOfExpr(info, cc.Args[1])) {
+					case "bufio.ErrTooLong":
+						return !at.True
+					case "os.ErrClosed", "io/fs.ErrClosed", "io.ErrClosedPipe":
+						return at.True
+					}
+					return false
+				}
+				if at.Kind != "nil" || !isScanErr(at.X) {
 					return false
 				}
 				return at.Op == token.EQL // Err() == nil: the scanner stopped at EOF
